@@ -1088,7 +1088,12 @@ func udpDeliveryLockRule(c *Ctx, rule string) {
 		return
 	}
 	n := 0
-	for _, fn := range append([]*ssa.Function{run}, run.AnonFuncs...) {
+	var loopFns []*ssa.Function
+	for _, fn := range withHelpers(run, 2) { // the loop body may be a closure or a method called from the loop
+		loopFns = append(loopFns, fn)
+		loopFns = append(loopFns, fn.AnonFuncs...)
+	}
+	for _, fn := range loopFns {
 		states := core.LockStates(fn, core.LockSet{})
 		for _, b := range fn.Blocks {
 			for _, in := range b.Instrs {
